@@ -24,7 +24,7 @@ func everyIteration(p *core.Program, info *types.Info, body *ast.BlockStmt, s as
 // counts as the iteration (the function is called once per element by its
 // caller), so conditions directly in the body are judged too.
 func everyIterationOf(p *core.Program, info *types.Info, body *ast.BlockStmt, s ast.Node,
-	allowCond func(cond ast.Expr, thenBranch bool) bool, whole bool) string {
+	allowCond func(cond ast.Expr, thenBranch bool) bool, whole bool, searchLoop ...func(ast.Stmt) bool) string {
 	// chain of enclosing nodes
 	var chain []ast.Node
 	ast.Inspect(body, func(n ast.Node) bool {
@@ -41,6 +41,11 @@ func everyIterationOf(p *core.Program, info *types.Info, body *ast.BlockStmt, s 
 	for i, n := range chain {
 		switch x := n.(type) {
 		case *ast.RangeStmt, *ast.ForStmt:
+			// a loop that searches for the row to work on (it ranges over the result, not over
+			// the elements that must all be treated): passing over non-matching rows is its purpose
+			if len(searchLoop) > 0 && searchLoop[0](x.(ast.Stmt)) {
+				continue
+			}
 			inLoop = true
 			var lb *ast.BlockStmt
 			if r, ok := x.(*ast.RangeStmt); ok {
@@ -63,6 +68,9 @@ func everyIterationOf(p *core.Program, info *types.Info, body *ast.BlockStmt, s 
 				case *ast.RangeStmt, *ast.ForStmt:
 					if !(m.Pos() <= s.Pos() && s.End() <= m.End()) {
 						return false // a nested loop that does not contain s: its breaks are its own
+					}
+					if m != ast.Node(lb) && len(searchLoop) > 0 && searchLoop[0](m.(ast.Stmt)) {
+						return false // a search loop around s: its continue / break select the row
 					}
 				case *ast.SwitchStmt, *ast.TypeSwitchStmt, *ast.SelectStmt:
 					if !(m.Pos() <= s.Pos() && s.End() <= m.End()) {
@@ -124,6 +132,12 @@ func everyIterationOf(p *core.Program, info *types.Info, body *ast.BlockStmt, s 
 			}
 		case *ast.CaseClause, *ast.CommClause:
 			if inLoop {
+				// the only clause, a default: always taken (the wrapper the inliner puts around early exits)
+				if cc, ok := n.(*ast.CaseClause); ok && cc.List == nil && i > 1 {
+					if sw, ok := chain[i-2].(*ast.SwitchStmt); ok && len(sw.Body.List) == 1 {
+						continue
+					}
+				}
 				// the first clause of a tagless switch is an if
 				if cc, ok := n.(*ast.CaseClause); ok && i > 1 && len(cc.List) == 1 {
 					if sw, ok := chain[i-2].(*ast.SwitchStmt); ok && sw.Tag == nil && len(sw.Body.List) > 0 && sw.Body.List[0] == ast.Stmt(cc) && allowCond(cc.List[0], true) {
